@@ -156,6 +156,18 @@ func DumpShowsParked(dump, frame string) bool {
 }
 
 // Hang describes a liveness failure together with supporting evidence.
+// Returns runs f on its own goroutine and reports whether it returned within the
+// liveness bound. A call into the framework that must not block goes through here so
+// a deadlock becomes a reported violation rather than a test-binary timeout.
+func Returns(f func()) bool {
+	done := make(chan struct{})
+	go func() {
+		defer close(done)
+		f()
+	}()
+	return WaitClosed(done)
+}
+
 func Hang(what string) string {
 	return fmt.Sprintf("%s did not happen within %v; goroutine dump:\n%s", what, LivenessBound, GoroutineDump())
 }
